@@ -1623,9 +1623,12 @@ impl Server {
         // Wake-ups requested by this command (LPUSH/RPUSH on a key with blocked clients) are carried out
         // now: the element reaches the waiter before the next command of this batch, or another
         // connection processed in this loop iteration, can pop it and leave the waiter stranded
-        if self.blocking_manager.has_pending_wakeups() {
+        // (process_wakeups carries out at most 32 requests per call: loop until the queue is empty, or the
+        // element of the 33rd waiter could be popped by the next command before its wake-up)
+        while self.blocking_manager.has_pending_wakeups() {
             if let Err(e) = self.process_wakeups() {
                 eprintln!("Error processing wake-ups: {}", e);
+                break;
             }
         }
         
